@@ -1,10 +1,15 @@
-(* Model of ONE method of the PyArrow filter engine: the regex filter (C11, known-finding domain).  Definitions only.
+(* Model of ONE method of the PyArrow filter engine: the regex filter (C11).  Definitions only.
 
-   Source: mloda_plugins/compute_framework/base_implementations/pyarrow/pyarrow_filter_engine.py do_regex_filter:
-       mask = pc.match_substring_regex(column, value);  return data.filter(mask)
+   Source: mloda_plugins/compute_framework/base_implementations/pyarrow/pyarrow_filter_engine.py do_regex_filter
+   (as of /repo d2087b7 "anchor the PyArrow regex filter at the start of the string"):
+       pattern = value if value.startswith("^") else f"^(?:{value})"
+       mask = pc.match_substring_regex(column, pattern);  return data.filter(mask)
    match_substring_regex is RE2 *search* semantics: the pattern may match anywhere in the string unless it is anchored
-   by "^" / "$" itself; a null cell gives a null mask entry, which Table.filter drops.  For the pattern family of
-   Spec/Filter.v ( ["^"] literal ["$"] ) search semantics is: equal / prefix / suffix / infix.
+   by "^" / "$" itself (`search`); a null cell gives a null mask entry, which Table.filter drops.  For the pattern
+   family of Spec/Filter.v ( ["^"] literal ["$"] ) search semantics is: equal / prefix / suffix / infix, and
+   "^(?:" lit ["$"] ")" is the same pattern with the caret set (`anchored`).
+   Before d2087b7 the engine searched with the user's pattern as given (`search p s`): that is the repaired known
+   finding C11-pyarrow-regex-unanchored, kept as C11_search_semantics_differs.
    The other PyArrow methods and the whole Pandas engine are library calls; they are compared with the SPEC directly
    (correspondence only, no model). *)
 From Coq Require Import List String ZArith Bool.
@@ -16,7 +21,8 @@ Fixpoint infix (l s : string) : bool :=
 Fixpoint suffix (l s : string) : bool :=
   String.eqb s l || match s with EmptyString => false | String _ s' => suffix l s' end.
 
-Definition arrow_matches (p : pattern) (s : string) : bool :=
+(* RE2 search with a pattern of the family *)
+Definition search (p : pattern) (s : string) : bool :=
   match caret p, dollar p with
   | true, true => String.eqb s (lit p)
   | true, false => prefix (lit p) s
@@ -24,19 +30,12 @@ Definition arrow_matches (p : pattern) (s : string) : bool :=
   | false, false => infix (lit p) s
   end.
 
+(* value if value.startswith("^") else "^(?:" + value + ")" *)
+Definition anchored (p : pattern) : pattern :=
+  if caret p then p else {| caret := true; lit := lit p; dollar := dollar p |}.
+
+Definition arrow_matches (p : pattern) (s : string) : bool := search (anchored p) s.
+
 (* row predicate of the PyArrow regex filter on a string column *)
 Definition arrow_regex_holds (p : pattern) (x : value) : bool :=
   match x with VStr s => arrow_matches p s | _ => false end.
-
-(* known-finding domain: the pattern is not anchored at the start by the user *)
-Definition kf_arrow_regex (p : pattern) : bool := negb (caret p).
-
-(* what the PyArrow engine returns for a list of filters when regex filters use search semantics *)
-Definition arrow_sat (f : filt) (r : row) : bool :=
-  match denote f with
-  | Some (CRegex p) => arrow_regex_holds p (get r (f_col f))
-  | Some c => holds c (get r (f_col f))
-  | None => false
-  end.
-Definition arrow_expected (names : list string) (fs : list filt) (t : table) : table :=
-  filter (fun r => forallb (fun f => negb (applicable names f) || arrow_sat f r) fs) t.
